@@ -1384,3 +1384,54 @@ class XPathSan:
         f = line.split("\t")
         detail = "XPath %r, context %s: %s" % (unhex(f[5]).decode("utf-8", "replace"), f[4], out)
         return (None, detail + " " + err[-400:])
+
+
+# ------------------------------------------------------------------------------------------------
+# oracle: regression cases outside the modelled fragment (metadata, YANG functions on the root, comment(), schema atoms)
+# ------------------------------------------------------------------------------------------------
+YANG_M = '''module m { yang-version 1.1; namespace "urn:m"; prefix m; import ietf-yang-metadata { prefix md; }
+  md:annotation a1 { type string; } md:annotation a2 { type string; }
+  container c { leaf-list x { type string; ordered-by user; } leaf y { type string; } leaf e { type enumeration { enum one; enum two; } } } }'''
+XML_M = ('<c xmlns="urn:m" xmlns:m="urn:m"><x m:a1="1" m:a2="p">a</x><x m:a1="2">b</x><x m:a1="3" m:a2="q">c</x><x m:a1="4">d</x>'
+         '<y m:a2="r">e</y><e>two</e></c>')
+
+
+class XPathRegress:
+    """regression cases with fixed expected answers for constructs the reference evaluator does not model: metadata on
+    the attribute axis (several annotations per node, sets of 4 and more items, predicates and unions on them), the YANG
+    functions applied to the root, comment(), sum() of the root in schema (atom) evaluation. Each was a crash, a failed
+    assertion or a wrong result before /repo c81b782, 66a156b, 8f32ad9, b416a60, 1448716."""
+    name = "xpath-regress"
+    driver = "t_xpath"
+    quick_sanitize = False
+    # dump of XML_M: c 0, x 1..4, y 5, e 6
+    CASES = [("count(/m:c/m:x/@*)", "F:3p1:36"), ("count(/m:c/*/@*)", "F:7p0:37"), ("count(//@*)", "F:7p0:37"),
+             ("/m:c/m:x/@m:a1[1]/..", "N:e1"), ("/m:c/m:x/@m:a1[last()]/..", "N:e4"), ("/m:c/m:x/@*[2]/..", "N:e1"),
+             ("name(/m:c/m:x/@*[2])", "S:" + hexs("m:a2")), ("string(/m:c/m:x/@m:a1[3])", "S:" + hexs("3")),
+             ("count(/m:c/m:x/@m:a1 | /m:c/m:x/@m:a2)", "F:3p1:36"), ("count(/m:c/m:x/@m:a1 | /m:c/m:x/@*)", "F:3p1:36"),
+             ("/m:c/*/@*[last()]/..", "N:e5"), ("/m:c//@m:a2/..", "N:e1,e3,e5"), ("/m:c/m:x/@node()[2]/..", "N:e1"),
+             ("/m:c//@*[4]/..", "N:e3"), ("count(//@*/@*)", "F:0:30"), ("count(/m:c/m:x/text()/@*)", "F:0:30"),
+             ("/m:c/m:x[@m:a2]", "N:e1,e3"), ("/m:c/m:x[@m:a2 = 'q']", "N:e3"), ("/m:c/*[@m:a2][last()]", "N:e5"),
+             ("string(/m:c/m:x[2]/@m:a1)", "S:" + hexs("2")), ("count(/m:c/m:x/@m:a1[string() > 1])", "F:3p0:33"),
+             ("enum-value(/)", "F:nan:" + hexs("NaN")), ("enum-value(/m:c/m:e)", "F:1p0:" + hexs("1")), ("deref(/)", "N:"),
+             ("bit-is-set(/, 'a')", "B:0"), ("enum-value(/m:c/m:y/text())", "F:nan:" + hexs("NaN")),
+             ("re-match('abc', '[')", "E7"), ("re-match('abc', 'a.c')", "B:1"), ("re-match(/m:c/m:y, '[a-e]')", "B:1"),
+             ("/m:c/comment()", "E7"), ("comment()", "E7"), ("//comment()", "E7"), ("count(/m:c/processing-instruction())", "E7")]
+    ATOMS = [("sum(/)", "0:0"), ("sum(/m:c/m:y)", "0:2"), ("sum(/ | /m:c/m:x)", "0:2"), ("count(/) + sum(/)", "0:0"),
+             ("/m:c/@node()", "0:1"), ("sum(/m:c/@*)", "0:1")]
+
+    def gen(self, rng, tier, scale=1.0):
+        y, x = hexs(YANG_M), hexs(XML_M)
+        L = ["xp\t%s\t%s\t?\t-1\t%s\tbad\t-" % (y, x, hexs(e)) for e, _ in self.CASES]
+        L += ["xpa\t%s\t%s" % (y, hexs(e)) for e, _ in self.ATOMS]
+        return L
+
+    def judge(self, line, out):
+        f = line.split("\t")
+        e = unhex(f[5] if f[0] == "xp" else f[2]).decode()
+        exp = dict(self.CASES if f[0] == "xp" else self.ATOMS)[e]
+        got = out[:-5] if out.endswith(" A:ok") else out
+        if got != exp:
+            return (None, "%s %r: libyang answers %s, expected %s %s" % ("XPath" if f[0] == "xp" else "atoms of", e, out, exp,
+                                                                         getattr(self, "last_err", "")[-300:]))
+        return None
